@@ -1,8 +1,9 @@
 """C14 Opacity/CIA files of every supported format load to the same physical
 table."""
 import ast
+import re
 
-from sa.helpers import (guard_is, validated, unlicensed, mkflow, spec, code, one, calls, bind_call, param_env,
+from sa.helpers import (the_return, guard_is, validated, unlicensed, mkflow, spec, code, one, calls, bind_call, param_env,
                         fmt, atom_of, unparse, walk_no_nested)
 from sa.index import AnalysisError, ClassInfo
 from sa.algebra import RF, Slice, dotted
@@ -42,7 +43,7 @@ CACHES = [(CA + 'opacitycache.py::OpacityCache', 'opacity_dict', 'load_opacity')
 def run(ix, R):
     _run(ix, R)
     from rules.common import memo_obligation
-    memo_obligation(ix, R, 'M.memo', ['taurex/opacity/', 'taurex/cia/'], 'the opacity and CIA readers')
+    memo_obligation(ix, R, 'M.memo', ['taurex/opacity/', 'taurex/cia/', 'taurex/cache/'], 'the opacity and CIA readers and caches')
 
 
 def _run(ix, R):
@@ -435,6 +436,23 @@ else:
                 any(x.node is g_.node and x.positive == g_.positive for x in a_.guards) for a_ in adds))] for s_ in sorts)
         R.check('6.hitran.resort', 'PERM', site, 'the list is re-sorted after every added temperature (inside the loop)',
                 ok, key='resort', detail='no re-sort after add_temperature inside the loop', loc=f.loc())
+    site = H + '::hashwn'
+    with R.guard('6.hitran.hash', 'TAB', site, 'range key'):
+        # blocks of one wavenumber range are collected under a key made of the two limits: the key must keep both
+        # numbers exactly (two ranges that differ in any digit are different tables)
+        f = ix.func(site)
+        fl = mkflow(ix, site)
+        r = the_return(fl)
+        ps = f.params()
+        txt = unparse(r.value_ast) if getattr(r, 'value_ast', None) is not None else ''
+        rounded = re.findall(r'\{[^{}]*:[^{}]*\.[0-9]+[fegFEG%]?[^{}]*\}|%\.[0-9]+[feg]|round\(|int\(', txt)
+        uses = all(re.search(r'\b%s\b' % re.escape(p_), txt) for p_ in ps[:2])
+        R.check('6.hitran.hash', 'TAB', site,
+                'the key of a wavenumber range is built from both limits at full precision (no rounding, no fixed number of decimals)',
+                uses and not rounded, key=txt[:80],
+                detail='range key is %s: %s' % (txt[:100], 'limits are rounded (%s), so ranges that differ beyond that digit share '
+                                                'one table' % rounded if rounded else 'a limit is not part of the key'),
+                loc=f.loc())
     site = H + '::HitranCIA.load_hitran_file'
     with R.guard('6.hitran.load', 'DOM', site, 'load order'):
         f = ix.func(site)
